@@ -160,6 +160,12 @@ func (e *Engine) Verify(name string) (*VC, error) {
 		m.Extends = ""
 		spec = &m
 	}
+	if spec.Trusted {
+		// assumed contract: nothing is generated; callers rely on it and the evidence lists it
+		tv := e.NewVC(fn, spec)
+		tv.note("TRUSTED contract (assumed, body not verified): %s (%s:%d)", name, strings.TrimPrefix(spec.File, "/repo/"), spec.Line)
+		return tv, nil
+	}
 	vc := e.NewVC(fn, spec)
 	if base != name {
 		vc.Variant = name[len(base):]
